@@ -1188,14 +1188,18 @@ func excludeFields(decls []ast.Decl) []ast.Expr {
 		if !ok {
 			continue
 		}
-		str, _, _ := ast.LabelName(f.Label)
-		if str != "" {
+		str, _, err := ast.LabelName(f.Label)
+		if err == nil {
 			if !first {
 				buf.WriteByte('|')
 			}
 			buf.WriteString(regexp.QuoteMeta(str))
 			first = false
 		}
+	}
+	if first {
+		// No field names to exclude.
+		return nil
 	}
 	buf.WriteString(")$")
 	return []ast.Expr{
